@@ -77,6 +77,8 @@ def addLine (ci : Bool) (line0 : List Nat) : LineResult :=
   -- a lone `!` (or `/`) carries no pattern: `if line.is_empty() { return Ok(self); }`
   if p.2.2.isEmpty then .skip else
   let d := splitDirSlash p.2.2
+  -- nothing but the (escaped) slash: `if line.is_empty() { return Ok(self); }` inside the trailing-slash block
+  if d.1 && d.2.isEmpty then .skip else
   let actual := actualOf p.2.1 d.2
   match parse (giOpts ci) actual with
   | .error e => .err e
